@@ -149,6 +149,11 @@ func runOutputCase(a args, idx int, r *h.Rand) {
 	chain := task.FromCommands("printf 'tok-%s' alpha", "printf 'saw[{{.Output}}]'", "printf 'then[{{.Output}}]'")
 	chain.Name = "chain"
 	stages = append(stages, &scheduler.Stage{Name: "chain", Task: chain})
+	// the same across a tolerated failure: the next command still reads the failing command's output
+	chain2 := task.FromCommands("printf 'first'", "printf 'second'; exit 3", "printf 'saw[{{.Output}}]'")
+	chain2.Name = "chain-allow"
+	chain2.AllowFailure = true
+	stages = append(stages, &scheduler.Stage{Name: "chain-allow", Task: chain2})
 	rnd2 := r.Perm(len(stages))
 	var shuffled []*scheduler.Stage
 	for _, i := range rnd2 {
@@ -201,6 +206,10 @@ func runOutputCase(a args, idx int, r *h.Rand) {
 	cst, _ := g.Node("chain")
 	if o := cst.Task.Output(); o != "tok-alphasaw[tok-alpha]then[saw[tok-alpha]]" {
 		out.Viol("C11", "output-chaining", fmt.Sprintf(".Output chaining gave %q", o), cas)
+	}
+	cst2, _ := g.Node("chain-allow")
+	if o := cst2.Task.Output(); o != "firstsecondsaw[second]" {
+		out.Viol("C11", "output-chaining/after-allowed-failure", fmt.Sprintf(".Output after a tolerated failing command gave %q, want %q", o, "firstsecondsaw[second]"), cas)
 	}
 	out.Nontrivial("C11", fmt.Sprint(name, exportAs, len(want), ncmd, nvar, ncons, via))
 	out.Sample("C11", cas)
